@@ -6,7 +6,7 @@ set -u
 ROOT="$(cd "$(dirname "${BASH_SOURCE[0]}")" && pwd)"
 export VERIF_ROOT="$ROOT"
 export CARGO_NET_OFFLINE=true
-unset RTEN_USE_POOL RTEN_TIMING RTEN_NUM_THREADS RTEN_INFER_SHAPES_DEBUG RUSTFLAGS 2>/dev/null || true
+unset RTEN_USE_POOL RTEN_TIMING RTEN_NUM_THREADS RTEN_INFER_SHAPES_DEBUG RUSTFLAGS SHUTTLE_RANDOM_SEED 2>/dev/null || true
 PROP="${1:-}"; MODE="${2:-quick}"
 [ -n "$PROP" ] || { echo "usage: run.sh <property> quick|thorough|--replay <file>" >&2; exit 2; }
 case "$PROP" in
@@ -17,6 +17,7 @@ case "$PROP" in
   C05) ENGINE=sim_load; SET=a; DUAL=1; export RTEN_NUM_THREADS=2 ;;
   C21) ENGINE=sim_extdata; SET=plain; export RTEN_NUM_THREADS=2 ;;
   C02|C24|C25) ENGINE=sim_exec; SET=a; export RTEN_NUM_THREADS=1 ;;
+  C23) ENGINE=sim_pool; SET=c ;;
   *) echo "HARNESS-ERROR: no engine for property $PROP" >&2; exit 2 ;;
 esac
 TDIR="$ROOT/target/$SET"
@@ -26,6 +27,7 @@ build() { # profile
   local flags=""
   case "$SET" in
     a) flags="--cfg rten_verif" ;;
+    c) flags="--cfg rten_verif=\"shuttle_pool\"" ;;
   esac
   if ! ( cd "$ROOT/sim" && RUSTFLAGS="$flags" CARGO_TARGET_DIR="$TDIR" cargo build --offline --profile "$profile" -p "$ENGINE" >"$log" 2>&1 ); then
     echo "HARNESS-ERROR: build of $ENGINE ($profile) failed; see $log" >&2
@@ -40,9 +42,71 @@ if [ "${DUAL:-0}" = 1 ]; then
   ARGS+=(--alt-exe "ship=$TDIR/ship/$ENGINE")
 fi
 BIN="$TDIR/release/$ENGINE"
+
+# C23 has a second back end: the same pool scenarios with std primitives under
+# Miri's seeded scheduler (double free, wrong-layout free, leaks, data races).
+miri_step() { # verif_seed first count seeds -> 0 ok / 1 UB found / 2 harness error
+  local vseed="$1" first="$2" count="$3" seeds="$4" log="$ROOT/target/miri-C23-$2.log"
+  ( cd "$ROOT/sim" && MIRIFLAGS="-Zmiri-many-seeds=$seeds -Zmiri-preemption-rate=0.1" CARGO_TARGET_DIR="$ROOT/target/miri" \
+      cargo +nightly miri run --offline -p sim_pool_miri -- "$vseed" "$first" "$count" >"$log" 2>&1 )
+  local rc=$?
+  if grep -q "Undefined Behavior\|MODEL-VIOLATION\|memory leaked\|Data race\|data race" "$log"; then return 1; fi
+  if [ $rc -ne 0 ] && ! grep -q "^ok scenarios" "$log"; then echo "HARNESS-ERROR: miri step failed; see $log" >&2; tail -n 20 "$log" >&2; return 2; fi
+  return 0
+}
+miri_replay_file() { # vseed first count seeds
+  mkdir -p "$ROOT/replays/C23"
+  local f="$ROOT/replays/C23/miri-s$1-w$2.json"
+  printf '{"property":"C23","engine":"sim_pool_miri","verif_seed":%s,"first_scenario":%s,"scenario_count":%s,"miri_seeds":"%s","finding_key":"C23/miri-undefined-behaviour","note":"re-run with: ./run.sh C23 --replay %s; the Miri report is in target/miri-C23-%s.log"}\n' "$1" "$2" "$3" "$4" "$f" "$2" > "$f"
+  echo "$f"
+}
+
+if [ "$MODE" = "--replay" ] && [ "$PROP" = C23 ] && grep -q '"engine":"sim_pool_miri"' "${3:-/dev/null}" 2>/dev/null; then
+  FILE="$3"
+  vs=$(python3 -c "import json,sys;d=json.load(open(sys.argv[1]));print(d['verif_seed'],d['first_scenario'],d['scenario_count'],d['miri_seeds'])" "$FILE") || exit 2
+  set -- $vs
+  miri_step "$1" "$2" "$3" "$4"; rc=$?
+  if [ $rc -eq 1 ]; then echo "VIOLATION property=C23 replay=$FILE"; grep -m3 "Undefined Behavior\|MODEL-VIOLATION\|memory leaked\|ata race" "$ROOT/target/miri-C23-$2.log"; exit 1; fi
+  [ $rc -eq 0 ] && echo "replay: no violation (property C23 holds on this case)"
+  exit $rc
+fi
 if [ "$MODE" = "--replay" ]; then
   FILE="${3:-}"; [ -f "$FILE" ] || { echo "HARNESS-ERROR: replay file '$FILE' not found" >&2; exit 2; }
   exec "$BIN" replay --property "$PROP" "${ARGS[@]}" "$FILE"
 fi
 case "$MODE" in quick|thorough) ;; *) echo "HARNESS-ERROR: unknown mode $MODE" >&2; exit 2 ;; esac
-exec "$BIN" batch --property "$PROP" --tier "$MODE" "${ARGS[@]}"
+if [ "$PROP" != C23 ]; then
+  exec "$BIN" batch --property "$PROP" --tier "$MODE" "${ARGS[@]}"
+fi
+"$BIN" batch --property "$PROP" --tier "$MODE" "${ARGS[@]}"; RC=$?
+[ $RC -eq 2 ] && exit 2
+VS="${VERIF_SEED:-1}"
+case "$MODE" in quick) WINDOWS=1; COUNT=8; SEEDS="0..64" ;; *) WINDOWS=16; COUNT=16; SEEDS="0..128" ;; esac
+T0=$(date +%s); MIRI_RUNS=0; MIRI_BAD=0
+for w in $(seq 0 $((WINDOWS-1))); do
+  first=$((w*COUNT))
+  miri_step "$VS" "$first" "$COUNT" "$SEEDS"; mrc=$?
+  [ $mrc -eq 2 ] && exit 2
+  MIRI_RUNS=$((MIRI_RUNS+1))
+  if [ $mrc -eq 1 ]; then
+    MIRI_BAD=$((MIRI_BAD+1)); RC=1
+    f=$(miri_replay_file "$VS" "$first" "$COUNT" "$SEEDS")
+    echo "VIOLATION property=C23 replay=$f"
+    grep -m3 "Undefined Behavior\|MODEL-VIOLATION\|memory leaked\|ata race" "$ROOT/target/miri-C23-$first.log" | sed 's/^/  /'
+  fi
+done
+T1=$(date +%s)
+SEEDN=${SEEDS#0..}
+echo "[sim_pool_miri] windows=$MIRI_RUNS scenarios_per_window=$COUNT miri_seeds=$SEEDS executions=$((MIRI_RUNS*COUNT*SEEDN)) failing_windows=$MIRI_BAD wall_s=$((T1-T0))"
+if [ -z "${VERIF_DUMP:-}" ]; then
+python3 - "$ROOT/evidence/C23.json" "$MIRI_RUNS" "$COUNT" "$SEEDS" "$MIRI_BAD" "$((T1-T0))" <<'PY' || { echo "HARNESS-ERROR: could not update evidence" >&2; exit 2; }
+import json,sys
+p,runs,count,seeds,bad,wall=sys.argv[1],int(sys.argv[2]),int(sys.argv[3]),sys.argv[4],int(sys.argv[5]),float(sys.argv[6])
+e=json.load(open(p)); n=int(seeds.split('..')[1])
+e['coverage']['miri_backend']={'scenario_windows':runs,'scenarios_per_window':count,'miri_scheduler_seeds':seeds,'executions':runs*count*n,'failing_windows':bad,'wall_s':wall,'decides':'double free, deallocation with a different layout, leaked returned buffers, data races on a buffer held twice (std primitives, real threads, Miri seeded scheduler with preemption rate 0.1)'}
+e['violations']=e.get('violations',0)+bad
+e['wall_s']=e.get('wall_s',0)+wall
+json.dump(e,open(p,'w'),indent=1)
+PY
+fi
+exit $RC
